@@ -682,7 +682,24 @@ class CHECK(core.Check):
         for i in range(n):
             yield self.gen_case(rng, malformed=False)
 
+    def _new_failure(self, cand):
+        """cand still fails the oracle with something that is NOT the recorded D12 behaviour (so that shrinking a
+        new violation does not drift into the known finding's region)"""
+        out = self.safe_impl(cand)
+        fails = self.failures(cand, out)
+        if not fails:
+            return False
+        if any(kind != "update" for kind, _ in fails):
+            return True
+        mo = self.model([cand])[0]
+        return not (self._region.get(core.case_key(cand)) and mo == out)
+
     def shrink_candidates(self, case):
+        for c in self._raw_shrink_candidates(case):
+            if self._new_failure(c):
+                yield c
+
+    def _raw_shrink_candidates(self, case):
         ops = case["ops"]
         for i in range(len(ops)):
             c = dict(case)
